@@ -118,13 +118,33 @@ def _call(i):
         _WORK(col, i)
     except HarnessError:
         raise
-    except Exception:
-        raise HarnessError("worker %d crashed:\n%s" % (i, traceback.format_exc()))
+    except Exception as ex:
+        if not library_raised(col, ex, f"unit {i}"):
+            raise HarnessError("worker %d crashed:\n%s" % (i, traceback.format_exc()))
     finally:
         if cov is not None:
             cov.stop()
             cov.save()
     return col.dump()
+
+
+def library_raised(col, ex, where):
+    """An exception that escaped from the library under check at a place where the harness does not expect one (on the
+    unchanged tree none does): the library fails on an input of the property's domain -> a violation, not a harness
+    error.  Returns False when no frame of the traceback lies in the library (then it IS a harness error)."""
+    repo = os.path.join(os.environ.get("VERIF_REPO", "/repo"), "spatialpandas") + os.sep
+    tb = traceback.extract_tb(ex.__traceback__)
+    lib = [f for f in tb if f.filename.startswith(repo)]
+    if not lib:
+        return False
+    harness = [f for f in tb if os.sep + "vf" + os.sep in f.filename]
+    h = harness[-1] if harness else tb[0]
+    f = lib[-1]
+    col.violation("library_raised", {"where": where, "harness_call": f"{os.path.basename(h.filename)}:{h.lineno} {h.line}",
+                                     "traceback": traceback.format_exception(type(ex), ex, ex.__traceback__)[-12:]},
+                  f"{type(ex).__name__}: {str(ex)[:200]} -- raised in {f.name} ({f.filename[len(repo):]}:{f.lineno}) "
+                  f"during {os.path.basename(h.filename)}:{h.lineno} `{h.line}`", err=type(ex).__name__)
+    return True
 
 
 def start_line_coverage():
@@ -150,7 +170,13 @@ def pmap(ctx, work, nchunks, timeout=3600, nproc=None):
     if nproc <= 1 or nchunks <= 1 or os.environ.get("VERIF_SERIAL"):
         for i in range(nchunks):
             c = Collector()
-            work(c, i)
+            try:
+                work(c, i)
+            except HarnessError:
+                raise
+            except Exception as ex:
+                if not library_raised(c, ex, f"unit {i}"):
+                    raise
             ctx.col.merge(c.dump())
         return
     _WORK = work
